@@ -864,3 +864,160 @@ def boundary_pool() -> list[Any]:
             seen.add(r)
             uniq.append(d)
     return uniq
+
+
+# --------------------------------------------------------------------------------------- expected payloads
+# Harness-side EXPECTED payload of a desc, computed from the desc alone (never from the built object), so that
+# a constructor that silently changes the data it is given is visible.  Conventions taken from the documented
+# behaviour of the constructors and nothing else:
+#   * signless / signed integers are stored as their signed representative ("ambiguous values will always be
+#     negative"), unsigned ones as they are; an element occupies 1/2/4/8 bytes, little endian, two's complement;
+#   * a float element is the IEEE pattern of its type; NaNs are compared modulo quieting (the hardware sets the
+#     quiet bit when a signalling NaN is narrowed) and, for f16, modulo the payload (CPython's half-float packing
+#     keeps only the sign of a NaN) - both are applied to the expected AND the observed pattern;
+#   * from_list with ONE element and a shape of n != 1 elements is a splat of that element.
+def elem_layout(t: Any) -> tuple[str, int, str, int, str]:
+    """(printable name, byte size, kind in int/f16/bf16/f32/f64, width, signedness) of a scalar element type desc."""
+    if t[0] == "index":
+        return "index", 8, "int", 64, "signless"
+    if t[0] in FMT:
+        return t[0], {"f16": 2, "bf16": 2, "f32": 4, "f64": 8}[t[0]], t[0], 0, ""
+    if t[0] == "i":
+        w = t[1]
+        size = 1 if w <= 8 else 2 if w <= 16 else 4 if w <= 32 else 8
+        return {"signless": "i", "signed": "si", "unsigned": "ui"}[t[2]] + str(w), size, "int", w, t[2]
+    raise ValueError(t)
+
+
+def norm_int(v: int, w: int, s: str, is_index: bool = False) -> int:
+    if is_index or s == "unsigned" or w == 0:
+        return v
+    half = 1 << (w - 1)
+    return ((v + half) % (1 << w)) - half
+
+
+def canon_float_bits(p: int, kind: str) -> int:
+    eb, mb = FMT[kind]
+    expmask = ((1 << eb) - 1) << mb
+    if p & expmask == expmask and p & ((1 << mb) - 1):
+        if kind == "f16":
+            return (p & (1 << (eb + mb))) | expmask | (1 << (mb - 1))
+        return p | (1 << (mb - 1))
+    return p
+
+
+def _expected_elem(v: Any, t: Any) -> list[int] | None:
+    """expected stored bit pattern(s) of one element given in a desc"""
+    if t[0] == "ComplexType":
+        a, b = _expected_elem(v[0], t[1]), _expected_elem(v[1], t[1])
+        return None if a is None or b is None else a + b
+    name, size, kind, w, s = elem_layout(t)
+    if kind == "int":
+        return [norm_int(v, w, s, t[0] == "index") % (1 << (8 * size))]
+    nb = narrow_bits(int(v, 16), FMT[kind])
+    return None if nb is None else [canon_float_bits(nb, kind)]
+
+
+def _scalar(t: Any) -> Any:
+    return t[1] if t[0] == "ComplexType" else t
+
+
+def expected_payload(d: Any) -> tuple | None:
+    """hashable expected payload of a leaf desc: (tag, type desc repr, canonical element patterns) or None"""
+    t = d[0]
+    if t in ("Dense", "DenseArray"):
+        et = d[1][1] if t == "Dense" else d[1]
+        elems = list(d[2])
+        if t == "Dense":
+            n = 1
+            for dim in d[1][2]:
+                n *= dim
+            if len(elems) == 1 and n != 1:
+                elems = elems * n
+        out: list[int] = []
+        for v in elems:
+            e = _expected_elem(v, et)
+            if e is None:
+                return None
+            out += e
+        return (t, repr(d[1]), tuple(out))
+    if t == "FloatAttr" and d[2][0] in FMT:
+        nb = narrow_bits(int(d[1], 16), FMT[d[2][0]])
+        return None if nb is None else (t, d[2][0], (canon_float_bits(nb, d[2][0]),))
+    if t == "IntegerAttr":
+        if d[2][0] == "index":
+            return (t, "index", (d[1],))
+        return (t, repr(d[2]), (norm_int(d[1], d[2][1], d[2][2]),))
+    return None
+
+
+def observed_payload(d: Any, x: Any) -> tuple | None:
+    """the same shape of value, read from the BUILT attribute (raw buffer with struct / stored python number)"""
+    t = d[0]
+    if t in ("Dense", "DenseArray"):
+        et = d[1][1] if t == "Dense" else d[1]
+        _, size, kind, _, _ = elem_layout(_scalar(et))
+        buf = bytes(x.data.data)
+        if len(buf) % size:
+            return (t, repr(d[1]), ("bad-length", len(buf)))
+        vals = [v[0] for v in struct.iter_unpack("<" + {1: "B", 2: "H", 4: "I", 8: "Q"}[size], buf)]
+        if kind != "int":
+            vals = [canon_float_bits(v, kind) for v in vals]
+        return (t, repr(d[1]), tuple(vals))
+    if t == "FloatAttr" and d[2][0] in FMT:
+        nb = narrow_bits(double_bits(x.value.data), FMT[d[2][0]])
+        return (t, d[2][0], (None if nb is None else canon_float_bits(nb, d[2][0]),))
+    if t == "IntegerAttr":
+        return (t, "index" if d[2][0] == "index" else repr(d[2]), (int(x.value.data),))
+    return None
+
+
+# ---- harness-written literals (never the printer)
+def _type_text(t: Any) -> str:
+    if t[0] == "ComplexType":
+        return f"complex<{_type_text(t[1])}>"
+    if t[0] in ("TensorType", "VectorType", "MemRefType"):
+        dims = "".join(f"{dim}x" for dim in t[2])
+        return {"TensorType": "tensor", "VectorType": "vector", "MemRefType": "memref"}[t[0]] + f"<{dims}{_type_text(t[1])}>"
+    return elem_layout(t)[0]
+
+
+def _elem_text(v: Any, t: Any) -> str:
+    if t[0] == "ComplexType":
+        return f"({_elem_text(v[0], t[1])}, {_elem_text(v[1], t[1])})"
+    name, size, kind, w, s = elem_layout(t)
+    if kind == "int":
+        if w == 1 and t[0] != "index":
+            return "true" if v else "false"
+        return str(v)
+    db = int(v, 16)
+    if (db >> 52) & 0x7FF == 0x7FF:                      # inf / nan: the bit pattern of the element type in hex
+        return f"0x{narrow_bits(db, FMT[kind]):0{2 * size}X}"
+    return f"{bits_double(db):.17e}"                      # always contains '.', identifies the double exactly
+
+
+def literal(d: Any) -> str | None:
+    """MLIR text of a Dense / DenseArray desc written by the harness from the desc alone."""
+    t = d[0]
+    if t == "Dense":
+        et, shape, elems = d[1][1], d[1][2], d[2]
+        n = 1
+        for dim in shape:
+            n *= dim
+        if not elems:
+            body = ""
+        elif len(elems) == 1 and (n != 1 or not shape):
+            body = _elem_text(elems[0], et)
+        else:
+            def nest(vals: list[Any], dims: list[int]) -> str:
+                if len(dims) <= 1:
+                    return "[" + ", ".join(_elem_text(v, et) for v in vals) + "]"
+                k = len(vals) // dims[0]
+                return "[" + ", ".join(nest(vals[i:i + k], dims[1:]) for i in range(0, len(vals), k)) + "]"
+            body = nest(list(elems), list(shape))
+        return f"dense<{body}> : {_type_text(d[1])}"
+    if t == "DenseArray":
+        if not d[2]:
+            return f"array<{_type_text(d[1])}>"
+        return f"array<{_type_text(d[1])}: " + ", ".join(_elem_text(v, d[1]) for v in d[2]) + ">"
+    return None
